@@ -98,60 +98,53 @@ func (pc *PubkeyCache) unsafeValidatorIndex(pubkey BLSPubkey) (index ValidatorIn
 // AddValidator appends the (index, pubkey) pair to the pubkey cache. It returns the same cache if the added entry is not conflicting.
 // If it conflicts, the part is inherited, and a forked pubkey cache is returned.
 func (pc *PubkeyCache) AddValidator(index ValidatorIndex, pub BLSPubkey) (*PubkeyCache, error) {
-	existingIndex, indexExists := pc.ValidatorIndex(pub)
-	existingPubkey, pubkeyExists := pc.Pubkey(index)
+	forkAt, fork, err := pc.addOrFork(index, pub)
+	if err != nil {
+		return nil, err
+	}
+	if fork {
+		// conflict detected! Deposit log fork!
+		forkedPc := &PubkeyCache{
+			parent: pc,
+			// fork out the existing index, only trust the history
+			trustedParentCount: forkAt,
+			pub2idx:            make(map[BLSPubkey]ValidatorIndex),
+			idx2pub:            make([]*CachedPubkey, 0),
+		}
+		// This cache (parent of forkedPc) is not locked anymore here: forkedPc reads it through the locking accessors.
+		return forkedPc.AddValidator(index, pub)
+	}
+	return pc, nil
+}
+
+// addOrFork decides and acts in a single critical section: it looks up the pubkey and the index and either
+// appends the pair, finds it is already there (no-op), reports the validator index to fork the cache at, or
+// errors on a gap. Checking under the read lock and appending under the write lock later would let two
+// concurrent AddValidator calls both pass the check, and the second then fails or overwrites pub2idx.
+func (pc *PubkeyCache) addOrFork(index ValidatorIndex, pub BLSPubkey) (forkAt ValidatorIndex, fork bool, err error) {
+	pc.rwLock.Lock()
+	defer pc.rwLock.Unlock()
+	existingIndex, indexExists := pc.unsafeValidatorIndex(pub)
+	existingPubkey, pubkeyExists := pc.unsafePubkey(index)
 
 	if indexExists {
 		if existingIndex != index {
-			// conflict detected! Deposit log fork!
-			forkedPc := &PubkeyCache{
-				parent: pc,
-				// fork out the existing index, only trust the history
-				trustedParentCount: existingIndex,
-				pub2idx:            make(map[BLSPubkey]ValidatorIndex),
-				idx2pub:            make([]*CachedPubkey, 0),
-			}
-			// Do not have to unlock this cache (parent of forkedPc) early, as the forkedPc is guaranteed to handle it.
-			return forkedPc.AddValidator(index, pub)
+			return existingIndex, true, nil
 		}
-		if pubkeyExists {
-			if existingPubkey.Compressed != pub {
-				// conflict detected! Deposit log fork!
-				forkedPc := &PubkeyCache{
-					parent: pc,
-					// fork out the existing index, only trust the history
-					trustedParentCount: index,
-					pub2idx:            make(map[BLSPubkey]ValidatorIndex),
-					idx2pub:            make([]*CachedPubkey, 0),
-				}
-				// Do not have to unlock this cache (parent of forkedPc) early, as the forkedPc is guaranteed to handle it.
-				return forkedPc.AddValidator(index, pub)
-			}
+		if pubkeyExists && existingPubkey.Compressed != pub {
+			return index, true, nil
 		}
 		// append is no-op, validator already exists
-		return pc, nil
+		return 0, false, nil
 	}
-	if pubkeyExists {
-		if existingPubkey.Compressed != pub {
-			// conflict detected! Deposit log fork!
-			forkedPc := &PubkeyCache{
-				parent: pc,
-				// fork out the existing index, only trust the history
-				trustedParentCount: index,
-				pub2idx:            make(map[BLSPubkey]ValidatorIndex),
-				idx2pub:            make([]*CachedPubkey, 0),
-			}
-			// Do not have to unlock this cache (parent of forkedPc) early, as the forkedPc is guaranteed to handle it.
-			return forkedPc.AddValidator(index, pub)
-		}
+	if pubkeyExists && existingPubkey.Compressed != pub {
+		return index, true, nil
 	}
-	pc.rwLock.Lock()
-	defer pc.rwLock.Unlock()
 	if expected := pc.trustedParentCount + ValidatorIndex(len(pc.idx2pub)); index != expected {
 		// index is unknown, but too far ahead of cache; in between indices are missing.
-		return nil, fmt.Errorf("AddValidator is incorrect, missing earlier index. got: (%d, %x), but currently expecting %d next", index, pub, expected)
+		return 0, false, fmt.Errorf("AddValidator is incorrect, missing earlier index. got: (%d, %x), but currently expecting %d next", index, pub, expected)
 	}
 	pc.idx2pub = append(pc.idx2pub, &CachedPubkey{Compressed: pub})
 	pc.pub2idx[pub] = index
-	return pc, nil
+	return 0, false, nil
 }
